@@ -270,7 +270,7 @@ func keeperRuns(lg *sim.Log, seed int64, runs, steps int) (int, error) {
 			lid, lapp := id, app
 			calc = func() sdk.Msg { return lockertypes.NewMsgLockerRewardCalcRequest(f.user.String(), lapp, lid) }
 		case "lend", "borrow":
-			lendAmt := []int64{10000000, 123456789, 700000000000}[rng.Intn(3)]
+			lendAmt := []int64{100000000, 123456789, 700000000000}[rng.Intn(3)]
 			// liquidity of the borrowed asset + the user's own lend position
 			if res := e.Deliver(lendtypes.NewMsgFundModuleAccounts(f.lendPool, f.lendB, f.user.String(), sdk.NewCoin("ulendb", sdk.NewInt(lendAmt*2)))); !res.OK {
 				return 0, fmt.Errorf("fund pool: %s", res.Err)
@@ -289,10 +289,9 @@ func keeperRuns(lg *sim.Log, seed int64, runs, steps int) (int, error) {
 			if open.OK && kind == "lend" {
 				// somebody has to borrow the lent asset for the lend APR to be positive: a second position lends B and borrows A
 				if res := e.Deliver(lendtypes.NewMsgLend(f.user.String(), f.lendB, sdk.NewCoin("ulendb", sdk.NewInt(lendAmt)), f.lendPool, f.lendApp)); !res.OK {
-					return 0, fmt.Errorf("lend B: %s", res.Err)
-				}
-				if res := e.Deliver(lendtypes.NewMsgBorrow(f.user.String(), 2, f.pairBA, stable, sdk.NewCoin("uclendb", sdk.NewInt(lendAmt)), sdk.NewCoin("ulenda", sdk.NewInt(bor)))); !res.OK {
-					return 0, fmt.Errorf("borrow A: %s", res.Err)
+					open = res
+				} else if res := e.Deliver(lendtypes.NewMsgBorrow(f.user.String(), 2, f.pairBA, stable, sdk.NewCoin("uclendb", sdk.NewInt(lendAmt)), sdk.NewCoin("ulenda", sdk.NewInt(bor)))); !res.OK {
+					open = res
 				}
 			}
 			calc = func() sdk.Msg { return lendtypes.NewMsgCalculateInterestAndRewards(f.user.String()) }
